@@ -42,8 +42,8 @@ PROPS["C01"] = dict(
 
 PROPS["C04"] = dict(
     pkg="c04", race=False, level="fault_enumeration", prepare="exec_projects", crash_is_violation=True,
-    projects_quick=[("core", ["v0", "w1", "w2"]), ("rnd4", ["v0", "w2"]), ("rnd5", ["w1"])],
-    projects_thorough=[("core", ["v0", "w1", "w2", "v1", "v2"])] + [("rnd%d" % k, ["v0", "w1", "w2"]) for k in (4, 5, 6, 7)],
+    projects_quick=[("core", ["v0", "w1", "w2"]), ("roots", ["v0", "w2"]), ("rnd4", ["v0", "w2"]), ("rnd5", ["w1"])],
+    projects_thorough=[("core", ["v0", "w1", "w2", "v1", "v2"]), ("roots", ["v0", "w1", "w2"])] + [("rnd%d" % k, ["v0", "w1", "w2"]) for k in (4, 5, 6, 7)],
     quick=dict(shards=8, timeout=900), thorough=dict(shards=16, timeout=3000),
     claim="fault enumeration: for every rapid-generated operation the check first runs fault-free to learn the invocation keys, then "
           "injects every single fault (each resolver and directive invocation x {error, panic}, foreign Go values at abstract "
